@@ -156,7 +156,7 @@ def run(ctx):
     for ln in range(2, 1024):
         if not ctx.mine(ln):
             continue
-        for rep in range(4 if ctx.quick else 100):
+        for rep in range(8 if ctx.quick else 100):
             p = streams.rand_unknown_payload(rng, ln)
             if rep % 2 == 1 or rng.random() < 0.3:
                 p = p[:2] + bytes(rng.choice(NASTY) for _ in range(ln - 2))
@@ -177,7 +177,7 @@ def run(ctx):
     for k, identity in enumerate(ids):
         if not ctx.mine(k):
             continue
-        for j in range(30 if ctx.quick else 1800):
+        for j in range(60 if ctx.quick else 1800):
             try:
                 enc = refmodel.build(identity, rng, rng.choice(refmodel.VSTRATS),
                                      rng.choice(refmodel.CSTRATS), rng.choice(refmodel.MSTRATS))
